@@ -86,6 +86,10 @@ def gen_cases(ctx):
             p["flag_form"] = ["int", "np"][i % 2]
         yield {"params": p, "draws": 10, "seed": rng.randrange(2**31), "instance": {"cls": "generated"},
                "conflict": conflict}
+        if i % 1000 == 7 and not conflict:
+            # the same parameters and seed in fresh processes under several hash seeds
+            yield {"kind": "hash_seeds", "params": dict(p), "seed": rng.randrange(2**31),
+                   "hash_seeds": [0, 1, 2, 3, 5, 8], "instance": {"cls": "generated"}}
 
 
 def rng_pair(x):
@@ -164,7 +168,46 @@ def check_instance(ctx, p, inst, forced=None, conflict=False):
     return errs, M, jobs
 
 
+_HASHSEED_SCRIPT = """
+import json, sys
+from job_shop_lib.generation import GeneralInstanceGenerator
+kw = json.loads(sys.argv[1])
+for k in ("num_jobs", "num_machines", "machines_per_operation", "duration_range"):
+    if isinstance(kw[k], list):
+        kw[k] = tuple(kw[k])
+g = GeneralInstanceGenerator(**kw)
+print(json.dumps([[[(list(op.machines), op.duration) for op in job] for job in g.generate().jobs]
+                  for _ in range(4)]))
+"""
+
+
+def across_hash_seeds(ctx, case):
+    """Same seed, same sequence - also in another process under another PYTHONHASHSEED."""
+    import json
+    import os
+    import subprocess
+    import sys
+    p = {k: v for k, v in case["params"].items() if k != "flag_form"}
+    outs = {}
+    for hs in case["hash_seeds"]:
+        pr = subprocess.run([sys.executable, "-c", _HASHSEED_SCRIPT, json.dumps(p)], capture_output=True, text=True,
+                            env=dict(os.environ, PYTHONHASHSEED=str(hs)), timeout=300)
+        if pr.returncode != 0:
+            ctx.violation("c19_generator_failed_under_a_hash_seed", {"params": p, "PYTHONHASHSEED": hs,
+                                                                      "error": pr.stderr[-300:]})
+            return
+        outs[hs] = pr.stdout.strip()
+    ctx.count("sequences_compared_across_hash_seeds", len(outs))
+    if len(set(outs.values())) > 1:
+        a, b = [hs for hs in outs if outs[hs] != outs[case["hash_seeds"][0]]][:1] + [case["hash_seeds"][0]]
+        ctx.violation("c19_sequence_depends_on_the_hash_seed",
+                      {"params": p, "PYTHONHASHSEED": [b, a], "first": outs[b][:300], "other": outs[a][:300]})
+    ctx.note_case(case, True, fingerprint="hashseeds:%s" % case["seed"])
+
+
 def run_case(ctx, case):
+    if case.get("kind") == "hash_seeds":
+        return across_hash_seeds(ctx, case)
     p = case["params"]
     rng = random.Random(case["seed"])
     g1 = make(p)
